@@ -104,6 +104,20 @@ func c20(c *Ctx) {
 			if !baseOK || !overOK || strings.Contains(over, "DeepCopy") {
 				okOrder = false
 			}
+			// MergeCfg writes into its first argument: the base must be a private copy - the result of DeepCopy() (the
+			// MakeInterface operand), made inside the same loop iteration when the merge sits in a loop
+			bv := a[0]
+			if mi, ok := bv.(*ssa.MakeInterface); ok {
+				bv = mi.X
+			}
+			fresh := false
+			if dc, ok := bv.(*ssa.Call); ok && an.ShortCallee(&dc.Call) == "DeepCopy" {
+				fresh = true
+				if h := an.InnermostLoopHeader(cl.Block()); h != nil && an.InnermostLoopHeader(dc.Block()) != h {
+					fresh = false // one copy shared by all iterations accumulates every entry's overrides
+				}
+			}
+			r.Check(fresh, "SIBLING", sprintf("%s/merge#%d/base-is-a-private-copy", key, nm), c.InstrPos(cl), "the base of the merge is a fresh DeepCopy", "MergeCfg (which overlays INTO its first argument) is handed "+an.Path(bv)+" as base, not a DeepCopy() made for this merge: the defaults (or the cluster copy shared by all node entries) are modified in place and leak into later entries / later ConfigMap revisions")
 		}
 		if name != "calculateHostAppConfigMerged" {
 			r.Check(okOrder && nm >= 2, "SIBLING", key+"/base-then-overlay", c.Pos(fn.Pos()), sprintf("%d MergeCfg calls take the layered copy as base and the parsed value as overlay", nm), "a MergeCfg call has base and overlay swapped (the more specific layer would be overwritten by the less specific one) or fewer than two merges are done")
@@ -150,7 +164,7 @@ func c20(c *Ctx) {
 	r.Floor("SIBLING", "section merge functions", len(vec), 5)
 
 	// syncConfig
-	r.Rule("PATH/FLOW: in syncConfig each calculate*Merged result is stored into the matching field of the new config on every path (also when the call reported an error); the cache field sloCfg is written only in updateCacheIfChanged")
+	r.Rule("PATH/FLOW: in syncConfig each calculate*Merged call is made on every path to the cache update and its result is the only thing ever stored into the matching field of the new config (also when the call reported an error; no shortcut that keeps the previous merged section on the strength of remembered raw text); the cache field sloCfg is written only in updateCacheIfChanged")
 	if fn := c.Fn(nodesloPkg, "SLOCfgHandlerForConfigMapEvent", "syncConfig"); fn != nil {
 		want := map[string]string{"calculateResourceThresholdCfgMerged": "ThresholdCfgMerged", "calculateResourceQOSCfgMerged": "ResourceQOSCfgMerged", "calculateCPUBurstCfgMerged": "CPUBurstCfgMerged", "calculateSystemConfigMerged": "SystemCfgMerged", "calculateHostAppConfigMerged": "HostAppCfgMerged"}
 		var names []string
@@ -193,6 +207,22 @@ func c20(c *Ctx) {
 				ok = len(an.Guards(store)) == len(an.Guards(call))
 			}
 			oldArg := strings.HasSuffix(an.Path(call.Common().Args[0]), "."+want[name])
+			// the section is recomputed from the ConfigMap in every sync: the call is on every path to the cache update,
+			// and nothing else is ever stored into the section of the new config
+			if upd != nil && !mustPass(call, upd) {
+				ok = false
+			}
+			for _, b2 := range fn.Blocks {
+				for _, in2 := range b2.Instrs {
+					if st2, isSt := in2.(*ssa.Store); isSt && st2 != store {
+						if owner, f2, base, isF := an.FieldOf(st2.Addr); isF && f2 == want[name] && store != nil {
+							if _, _, base1, _ := an.FieldOf(store.Addr); base1 == base && strings.HasSuffix(owner, "SLOCfg") {
+								ok = false
+							}
+						}
+					}
+				}
+			}
 			r.Check(ok && oldArg, "PATH", key, c.InstrPos(call), "result stored unconditionally; old section passed in", sprintf("section %s: result stored unconditionally into the matching field=%v, previous value of the same section passed as oldCfg=%v (a section that fails to parse would be reset instead of kept)", want[name], ok, oldArg))
 		}
 		r.Check(upd != nil, "PATH", fkey(fn)+"/cache-through-updateCacheIfChanged", c.Pos(fn.Pos()), "cache updated through updateCacheIfChanged", "syncConfig no longer hands the new config to updateCacheIfChanged")
